@@ -987,6 +987,10 @@ pub fn corpus_c07(tier: &str, rng: &mut Rng) -> Vec<Case> {
         ("caret-after-spaces", Canon, "pragma solidity    ^0.8.0;\n"),
         ("caret-after-newline", Canon, "pragma solidity\n    ^0.8.0;\n"),
         ("caret-without-space", Canon, "pragma solidity^0.8.0;\n"),
+        ("caret-with-block-comment", Canon, "pragma solidity /* range */ ^0.8.0 /* up to 0.9 */;\n"),
+        ("pinned-with-caret-in-block-comment", Near, "pragma solidity 0.8.10 /* was ^0.8.0 */;\n"),
+        ("pinned-with-caret-in-leading-comment", Near, "pragma solidity /* ^ */ 0.8.10;\n"),
+        ("pinned-with-caret-in-line-comment", Near, "pragma solidity 0.8.10 // not ^0.8.0\n;\n"),
         ("pinned", Near, "pragma solidity 0.8.10;\n"),
         ("pinned-old", Near, "pragma solidity 0.4.24;\n"),
         ("pinned-1-0-0", Near, "pragma solidity 1.0.0;\n"),
@@ -1493,7 +1497,7 @@ pub fn dec_add_one(s: &str) -> String {
 // C09: version matrix
 // ---------------------------------------------------------------------------------------------
 pub const OPERATORS: &[(&str, &str)] = &[("none", ""), ("caret", "^"), ("tilde", "~"), ("equals", "="), ("greater-equal", ">="), ("greater", ">")];
-pub const PLACEMENTS: &[&str] = &["none", "before", "after", "both", "after-definition", "at-end"];
+pub const PLACEMENTS: &[&str] = &["none", "before", "after", "both", "after-definition", "at-end", "comment-after-version", "comment-before-version", "line-comment-after-version", "experimental-version-like-before"];
 
 pub fn c09_bodies() -> Vec<(&'static str, String)> {
     let s31 = "a".repeat(31);
@@ -1516,6 +1520,10 @@ pub fn c09_bodies() -> Vec<(&'static str, String)> {
             format!("using SafeMath for uint;\ncontract V {{\n    function f(uint a, uint b) public returns (uint) {{\n{}{}        return c;\n    }}\n}}\n", calls, requires),
         ),
         (
+            "using-star",
+            format!("contract V {{\n    using SafeMath for *;\n    function f(uint a, uint b) public returns (uint) {{\n{}{}        return c;\n    }}\n}}\n", calls, requires),
+        ),
+        (
             "no-using",
             format!("contract V {{\n    using Other for uint;\n    function f(uint a, uint b) public returns (uint) {{\n{}{}        return c;\n    }}\n}}\n", calls, requires),
         ),
@@ -1534,8 +1542,18 @@ pub fn c09_file(version: Option<(u32, u32, u32)>, op: &str, placement: &str, bod
     if placement == "at-end" {
         src.push_str(body);
     }
+    if placement == "experimental-version-like-before" {
+        src.push_str("pragma experimental \"v0.9.0\";\n");
+    }
     if let Some((a, b, c)) = version {
-        src.push_str(&format!("pragma solidity {}{}.{}.{};\n", op, a, b, c));
+        // a comment inside the pragma statement that looks like another version (the parser keeps it in the value)
+        let other = if (a, b) >= (0, 8) { "0.4.11" } else { "0.8.19" };
+        match placement {
+            "comment-after-version" => src.push_str(&format!("pragma solidity {}{}.{}.{} /* was {} */;\n", op, a, b, c, other)),
+            "comment-before-version" => src.push_str(&format!("pragma solidity /* not {} */ {}{}.{}.{};\n", other, op, a, b, c)),
+            "line-comment-after-version" => src.push_str(&format!("pragma solidity {}{}.{}.{} // {}\n;\n", op, a, b, c, other)),
+            _ => src.push_str(&format!("pragma solidity {}{}.{}.{};\n", op, a, b, c)),
+        }
     }
     if placement == "after" || placement == "both" {
         src.push_str("pragma abicoder v2;\n");
